@@ -185,9 +185,38 @@ structure FTyOk (ty : Text) : Prop where
   notStruct : lower ty ≠ "structure".toList
   known : ∃ dt, lookup Gen.LOWER_DAP2_TO_NUMPY_PARSER_TYPEMAP (lower ty) = some dt
 
+/-- a name as a foreign text may spell it: non-empty ASCII, no `;` and no `[` (the parser's name token is `[^;\[]+`,
+    `[^;]+` for containers), not starting with white space (which the parser strips before the token), no `/` (a path
+    separator for `DatasetType.__setitem__`; the property's names exclude it) -/
+structure RawNameOk (n : Text) : Prop where
+  ne : n ≠ []
+  chars : ∀ c ∈ n, notSemiBr c = true
+  ascii : ∀ c ∈ n, c.toNat < 128
+  noSlash : ∀ c ∈ n, c ≠ '/'
+  dap4 : n.take 4 = ['d', 'a', 'p', '4'] → ∀ c ∈ n.take 8, isNameRe c = true
+  head : ∀ c cs, n = c :: cs → isSpace c = false
+
+theorem RawNameOk.lstrip {n : Text} (h : RawNameOk n) (x : Text) : lstrip (n ++ x) = n ++ x := by
+  cases hn : n with
+  | nil => exact absurd hn h.ne
+  | cons c cs => exact lstrip_cons_nonspace _ (h.head c cs hn)
+
+theorem notSemiBr_notSemi (c : Char) (h : notSemiBr c = true) : notSemi c = true := by char_arith
+theorem nameRe_ascii (c : Char) (h : isNameRe c = true) : c.toNat < 128 := by char_arith
+
+/-- a name already made of `name_regexp` characters is a raw name -/
+theorem nameRe_noSlash (c : Char) (h : isNameRe c = true) : c ≠ '/' := by
+  intro e; subst e; exact absurd h (by decide)
+
+theorem NameOk.raw {n : Text} (h : NameOk n) : RawNameOk n :=
+  ⟨h.1, fun c hc => nameRe_notSemiBr c (h.2 c hc), fun c hc => nameRe_ascii c (h.2 c hc),
+   fun c hc => nameRe_noSlash c (h.2 c hc),
+   fun _ c hc => h.2 c (List.mem_of_mem_take hc),
+   fun c cs e => nameRe_not_space c (h.2 c (by rw [e]; simp))⟩
+
 structure FBaseOk (b : FBase) : Prop where
   ty : FTyOk b.ty
-  name : NameOk b.name
+  name : RawNameOk b.name
   dims : ∀ e ∈ b.dims, EntryOk e
   gs : GsOk b.gs
 
@@ -230,7 +259,7 @@ theorem fbase_parse (b : FBase) (hb : FBaseOk b) (rest : Text) :
     hb.ty.word hb.ty.ne (by decide)
   rw [lstrip_cons_space _ (by decide), lstrip_ws _ _ (gap_ws hb.gs 0), hb.name.lstrip] at s1
   have s2 := consumeClass_span' notSemiBr b.name (b.dims.flatMap (fdimText b.gs) ++ ';' :: (gap b.gs 6 ++ rest))
-    (fun c hc => nameRe_notSemiBr c (hb.name.2 c hc)) hb.name.1 (fdims_head _ _ _)
+    hb.name.chars hb.name.ne (fdims_head _ _ _)
   rw [fdims_lstrip] at s2
   have s3 := fdimensions b.gs hb.gs b.dims (gap b.gs 6 ++ rest)
     (b.dims.flatMap (fdimText b.gs) ++ ';' :: (gap b.gs 6 ++ rest)).length hb.dims
@@ -238,7 +267,7 @@ theorem fbase_parse (b : FBase) (hb : FBaseOk b) (rest : Text) :
   have s4 : consumeLit [';'] (';' :: (gap b.gs 6 ++ rest)) = .ok (lstrip rest) := by
     rw [consumeLit_one _ _ _ rfl, lstrip_ws _ _ (gap_ws hb.gs 6)]
   have hd : declTy b.ty = dt := by simp [declTy, hdt]
-  simp only [base, s1, hdt, s2, s3, s4, quoteName_ok hb.name, declBase, hd]
+  simp only [base, s1, hdt, s2, s3, s4, declBase, hd]
 
 theorem fbase_peek (b : FBase) (hb : FBaseOk b) (rest : Text) : peekLit ['}'] (fbaseText b ++ rest) = false := by
   obtain ⟨c, r, e, hc⟩ := fbase_head b hb rest
@@ -290,8 +319,8 @@ theorem kw_peek (kw lit x : Text) (h : KwOk kw lit) (hl : ∀ c ∈ lit, isLower
   obtain ⟨c, cs, e, hc⟩ := kw_head kw lit h hl hne
   subst e; exact word_peek_close c _ hc
 
-theorem fclosing (gs : List Text) (hgs : GsOk gs) (i : Nat) (name rest : Text) (h : NameOk name) :
-    closing (lstrip (fcloseText gs i name ++ rest)) = .ok (name, lstrip rest) := by
+theorem fclosing (gs : List Text) (hgs : GsOk gs) (i : Nat) (name rest : Text) (h : RawNameOk name) :
+    closing (lstrip (fcloseText gs i name ++ rest)) = .ok (quoteName name, lstrip rest) := by
   have e1 : lstrip (fcloseText gs i name ++ rest) = '}' :: (gap gs i ++ (name ++ ';' :: (gap gs (i + 1) ++ rest))) := by
     simp only [fcloseText, List.append_assoc, List.cons_append]
     exact lstrip_cons_nonspace _ (by decide)
@@ -299,11 +328,11 @@ theorem fclosing (gs : List Text) (hgs : GsOk gs) (i : Nat) (name rest : Text) (
   have s1 : consumeLit ['}'] ('}' :: (gap gs i ++ (name ++ ';' :: (gap gs (i + 1) ++ rest))))
       = .ok (name ++ ';' :: (gap gs (i + 1) ++ rest)) := by
     rw [consumeLit_one _ _ _ rfl, lstrip_ws _ _ (gap_ws hgs i), h.lstrip]
-  have s2 := consumeClass_span notSemi name ';' (gap gs (i + 1) ++ rest) (fun c hc => nameRe_notSemi c (h.2 c hc)) h.1 (by decide)
+  have s2 := consumeClass_span notSemi name ';' (gap gs (i + 1) ++ rest) (fun c hc => notSemiBr_notSemi c (h.chars c hc)) h.ne (by decide)
   rw [lstrip_cons_nonspace _ (by decide)] at s2
   have s3 : consumeLit [';'] (';' :: (gap gs (i + 1) ++ rest)) = .ok (lstrip rest) := by
     rw [consumeLit_one _ _ _ rfl, lstrip_ws _ _ (gap_ws hgs (i + 1))]
-  simp only [closing, s1, s2, s3, quoteName_ok h]
+  simp only [closing, s1, s2, s3]
 
 theorem fclosing_peek (gs : List Text) (i : Nat) (name rest : Text) :
     peekLit ['}'] (lstrip (fcloseText gs i name ++ rest)) = true := by
@@ -366,16 +395,16 @@ structure FGridOk (kw kwA kwM name : Text) (gs : List Text) (arr : FBase) (maps 
   hkw : KwOk kw "grid".toList
   hkwA : KwOk kwA "array".toList
   hkwM : KwOk kwM "maps".toList
-  hname : NameOk name
+  hname : RawNameOk name
   hgs : GsOk gs
   harr : FBaseOk arr
   hmaps : ∀ b ∈ maps, FBaseOk b
-  hnodup : ((arr :: maps).map (·.name)).Nodup
+  hnodup : ((arr :: maps).map fun b => quoteName b.name).Nodup
 
 theorem fgrid_parse (kw kwA kwM name : Text) (gs : List Text) (arr : FBase) (maps : List FBase) (rest : Text)
     (h : FGridOk kw kwA kwM name gs arr maps) :
     grid (ftextT (.grid kw kwA kwM name gs arr maps) ++ rest)
-      = .ok (.grid name (declBase arr :: maps.map declBase), lstrip rest) := by
+      = .ok (.grid (quoteName name) (declBase arr :: maps.map declBase), lstrip rest) := by
   generalize hR3 : fcloseText gs 6 name ++ rest = R3
   generalize hM : kwM ++ (gap gs 4 ++ ':' :: (gap gs 5 ++ (fbasesText maps ++ R3))) = M
   generalize hA : kwA ++ (gap gs 2 ++ ':' :: (gap gs 3 ++ (fbaseText arr ++ M))) = A
@@ -404,11 +433,11 @@ theorem fgrid_parse (kw kwA kwM name : Text) (gs : List Text) (arr : FBase) (map
     rw [← hA, ← hM]
     simp only [List.length_append, List.length_cons]; omega
   have s9 := fmapsLoop maps R3 _ h.hmaps hlen (by rw [← hR3]; exact fclosing_peek gs 6 name rest)
-  have s10 : closing (lstrip R3) = .ok (name, lstrip rest) := by
+  have s10 : closing (lstrip R3) = .ok (quoteName name, lstrip rest) := by
     rw [← hR3]; exact fclosing gs h.hgs 6 name rest h.hname
   have hins : insertAllB (declBase arr :: maps.map declBase) = declBase arr :: maps.map declBase := by
     apply insertAllB_nodup
-    have e : (declBase arr :: maps.map declBase).map (·.name) = (arr :: maps).map (·.name) := by
+    have e : (declBase arr :: maps.map declBase).map (·.name) = (arr :: maps).map fun b => quoteName b.name := by
       simp [declBase, Function.comp_def]
     rw [e]; exact h.hnodup
   simp only [grid, s1, s2, s3, s4, s5, s6, s7, s8, s9, s10, hins]
